@@ -1212,6 +1212,12 @@ class SmearNative:
                     tot = float(np.sum(np.asarray(wk)[:, None, None] * f))
                     if abs(tot - Nelec) > 1e-8 or f.min() < -1e-14 or f.max() > 2 / Nspin + 1e-14 or not np.isfinite(float(ef)):
                         bad.append(dict(case, weighted_filling_sum=tot, min=float(f.min()), max=float(f.max()), Efermi=float(ef)))
+                        continue
+                    # the stored fillings ARE the Fermi function of the given eigenvalues at the returned level (written out independently)
+                    with np.errstate(over="ignore"):
+                        want = 2 / Nspin / (np.exp((eps - float(ef)) / width) + 1)
+                    if np.abs(f - want).max() > 1e-10:
+                        bad.append(dict(case, fillings_differ_from_the_Fermi_function_at_the_returned_level_by=float(np.abs(f - want).max()), Efermi=float(ef)))
         return bad, n
 
     def __call__(self, ob, tier, seed):
